@@ -12,7 +12,9 @@ CONSTANTS NAtoms, Width, Shape, Mode, Stride, TStride, Offset
 
 \* class 1: (f1, f2 = 0)      class 2: (f1, f2 = 1, f3 = 0)
 FieldsDef == <<  <<[hasdef |-> FALSE, def |-> 0], [hasdef |-> TRUE, def |-> 0]>>,
-                 <<[hasdef |-> FALSE, def |-> 0], [hasdef |-> TRUE, def |-> 1], [hasdef |-> TRUE, def |-> 0]>> >>
+                 <<[hasdef |-> FALSE, def |-> 0], [hasdef |-> TRUE, def |-> 1], [hasdef |-> TRUE, def |-> 0]>>,
+                 \* class 3: positional (defaultdict): (factory, items = {} by default)
+                 <<[hasdef |-> FALSE, def |-> 0], [hasdef |-> TRUE, def |-> 0]>> >>
 Atoms == 0..(NAtoms - 1)
 SeqUpTo(S, n) == UNION {[1..m -> S] : m \in 0..n}
 Keys == {11, 12, 13}
@@ -42,7 +44,9 @@ Terms ==
          IN inner \cup {LT(e) : e \in SeqUpTo(el, 2)}
             \cup {DT(<<11>>, <<x>>) : x \in inner} \cup {DT(<<11, 12>>, <<x, y>>) : x \in inner, y \in LitH \cup inner}
     [] Shape = "dict" -> {d \in {DT(ks, e) : ks \in KeySeqs(Width), e \in SeqUpTo(Leaf0, Width)} : Len(d.k) = Len(d.e)}
-    [] Shape = "call" -> {c \in {CT(cl, p, kn, ke) : cl \in DOMAIN Fields, p \in SeqUpTo(Leaf0, 1),
+    \* (the constructor of a defaultdict consumes its arguments: they cannot be Is(...) objects)
+    [] Shape = "pos" -> {CT(PosCls, p, <<>>, <<>>) : p \in SeqUpTo({Lit(n, c) : n \in Atoms, c \in BOOLEAN}, 2) \ {<<>>}}
+    [] Shape = "call" -> {c \in {CT(cl, p, kn, ke) : cl \in (DOMAIN Fields) \ {PosCls}, p \in SeqUpTo(Leaf0, 1),
                                    kn \in SeqUpTo(1..3, 2), ke \in SeqUpTo(Leaf0, 2)} :
                              Len(c.kn) = Len(c.ke) /\ WellFormedCall(c)}
 Vals ==
@@ -52,7 +56,8 @@ Vals ==
     [] Shape = "inner" -> Val0 \cup {L(e) : e \in SeqUpTo(Val0 \cup SmallL, 2)} \cup {D(<<11>>, <<x>>) : x \in Val0}
                           \cup {D(<<12, 11>>, <<x, y>>) : x, y \in Val0}
     [] Shape = "dict" -> Val0 \cup {d \in {D(ks, e) : ks \in KeySeqs(Width), e \in SeqUpTo(Val0, Width)} : Len(d.k) = Len(d.e)}
-    [] Shape = "call" -> Val0 \cup UNION {{C(cl, f) : f \in [1..Len(Fields[cl]) -> Val0]} : cl \in DOMAIN Fields}
+    [] Shape = "pos" -> Val0 \cup {C(PosCls, f) : f \in [1..2 -> Val0]}
+    [] Shape = "call" -> Val0 \cup UNION {{C(cl, f) : f \in [1..Len(Fields[cl]) -> Val0]} : cl \in (DOMAIN Fields) \ {PosCls}}
 
 TermSeq == SetToSeq(Terms)
 ValSeq == SetToSeq(Vals)
